@@ -216,6 +216,13 @@ class Stack:
             )
             for e in cfg.get("eventgroups", [])
         ]
+        self.helper = None
+        h = cfg.get("helper")
+        if h:
+            Svc = type("HelperService", (lib.service.SimpleService,), {"service_id": h["svc"], "version_major": h["major"], "version_minor": h["minor"]})
+            self.helper = Svc(h["inst"])
+            self.helper.transport = core.SimTransport(sim, NODE_NAME, SVC_ADDR)
+            self.helper_announced = False
         self.subscribed = set()
         self.findsub = set()
         self.conn_lost = False
@@ -314,6 +321,16 @@ class Stack:
                 return "skip"
             self.announced.discard(i)
             prot.announcer.stop_announce_service(self.instances[i])
+        elif f == "helper_start_announce":
+            if self.helper_announced:
+                return "skip"
+            self.helper_announced = True
+            self.helper.start_announce(prot.announcer)
+        elif f == "helper_stop_announce":
+            if not self.helper_announced:
+                return "skip"
+            self.helper_announced = False
+            self.helper.stop_announce(prot.announcer)
         elif f == "ann_start":
             if prot.announcer.started or self.conn_lost:
                 return "skip"
@@ -382,6 +399,7 @@ def execute(plan):
         "net": {"latency": cfg.get("latency", 0.0)},
         "max_iterations": cfg.get("max_iterations", 200000),
         "mc_loop": cfg.get("mc_loop", False),
+        "trace_timers": cfg.get("trace_timers", False),
     }
     sim = core.new_sim(plan["seed"], simcfg)
     st = Stack(sim, cfg)
@@ -438,6 +456,7 @@ def execute(plan):
     res.swallowed = sim.swallowed
     res.iterations = sim.loop.iteration
     res.sim_time = sim.loop._now
+    res.timer_log = sim.loop.timer_log
     return res
 
 
